@@ -354,15 +354,17 @@ func (c *Conn) Read(b []byte) (int, error) {
 		case r[0] == 22 && len(r) > 5 && r[5] == 1 && c.retryCount.Load() == 1:
 			c.debugf("Handshake Retried ClientHello\n")
 			c.readPassthrough = true
+			// Alerts go straight to the underlying connection: Write and its
+			// buffer belong to the goroutine that copies the backend's data.
 			if r, err = readFragments(c.Conn, r); err != nil {
 				c.readErr = err
-				convertErrorsToAlerts(c, err)
+				convertErrorsToAlerts(c.Conn, err)
 				return 0, err
 			}
 			_, inner, err := c.handleClientHello(r, true)
 			if err != nil {
 				c.readErr = err
-				convertErrorsToAlerts(c, err)
+				convertErrorsToAlerts(c.Conn, err)
 				return 0, err
 			}
 			r, c.readErr = inner.Marshal()
